@@ -99,7 +99,7 @@ Definition meas (w : world) : nat * nat := (m_in w, m_out w).
 (* the kernel contract for a ready event in a calm world (K2: readiness is truthful) *)
 Definition evt_live (w : world) (e : event) : Prop :=
   match e with
-  | EvIn fd => exists x, alookup fd (w_conns w) = Some x /\ sc_out x = false /\
+  | EvIn fd _ => exists x, alookup fd (w_conns w) = Some x /\ sc_out x = false /\
                          k_tosrv (client_of w (sc_client x)) <> []
   | EvOut fd _ => exists x, alookup fd (w_conns w) = Some x /\ sc_out x = true
   | EvListener nf => alookup nf (w_conns w) = None /\ w_backlog w <> []
@@ -108,7 +108,7 @@ Definition evt_live (w : world) (e : event) : Prop :=
 
 Lemma evt_live_ok w e : evt_live w e -> evt_ok w e.
 Proof.
-  destruct e as [fd|fd|fd kk|nf|]; cbn; try tauto.
+  destruct e as [fd|fd kk|fd kk|nf|]; cbn; try tauto.
   - intros (x & H & Ho & _). eauto.
 Qed.
 
@@ -279,8 +279,8 @@ Definition cl_add_rx (cl : client) (s : bytes) : client :=
 Lemma client_of_lookup w c cl : alookup c (w_clients w) = Some cl -> client_of w c = cl.
 Proof. intros H. unfold client_of. rewrite H. reflexivity. Qed.
 
-Lemma shape_in w toks fd w' ys :
-  Inv w toks -> Calm w -> evt_live w (EvIn fd) -> handle_event w (EvIn fd) = inl (w', ys) ->
+Lemma shape_in w toks fd kk w' ys :
+  Inv w toks -> Calm w -> evt_live w (EvIn fd kk) -> handle_event w (EvIn fd kk) = inl (w', ys) ->
   exists x y cl n,
     alookup fd (w_conns w) = Some x /\ alookup (sc_client x) (w_clients w) = Some cl /\
     (1 <= n <= length (k_tosrv cl))%nat /\
@@ -294,13 +294,16 @@ Proof.
   rewrite (client_of_lookup _ _ _ Hcl) in *.
   destruct (inv_cc _ _ _ HI _ _ HL) as [Hok [ph I]].
   assert (Hshort : (length (c_win (sc_conn x)) < BUF)%nat) by (eapply conn_win_short; eauto).
-  set (n := Nat.min (BUF - length (c_win (sc_conn x))) (length (k_tosrv cl))).
+  set (n := read_amount kk (BUF - length (c_win (sc_conn x))) (length (k_tosrv cl))).
+  assert (Hra : (n <= (BUF - length (c_win (sc_conn x))) /\ n <= (length (k_tosrv cl)) /\ (1 <= (BUF - length (c_win (sc_conn x))) -> 1 <= (length (k_tosrv cl)) -> 1 <= n))%nat)
+    by (unfold n, read_amount; destruct (Nat.eqb kk 0) eqn:Ek; [|apply Nat.eqb_neq in Ek]; lia).
+  destruct Hra as (Ra1 & Ra2 & Ra3).
   assert (Hn : (1 <= n <= length (k_tosrv cl))%nat).
-  { unfold n. destruct (k_tosrv cl); [congruence|]. cbn [length]. lia. }
+  { split; [|exact Ra2]. apply Ra3; [lia|]. destruct (k_tosrv cl); [congruence|]. cbn [length]. lia. }
   destruct (firstn n (k_tosrv cl)) as [|b bs] eqn:Fn.
   { exfalso. assert (L : length (firstn n (k_tosrv cl)) = n) by (rewrite firstn_length; lia). rewrite Fn in L. cbn in L. lia. }
   assert (Hlen : (length (c_win (sc_conn x)) + length (b :: bs) <= BUF)%nat).
-  { rewrite <- Fn, firstn_length. unfold n. lia. }
+  { rewrite <- Fn, firstn_length. lia. }
   destruct (cc_read x (RData (b :: bs) [])) as [[y rs]|err] eqn:R; [|discriminate].
   destruct (cc_read_calm x b bs y rs (conj Hok (ex_intro _ ph I)) Hlen R Hst) as (Hy & Hyb & Hyc).
   destruct (cc_read_rq x b bs y rs (conj Hok (ex_intro _ ph I)) Hlen R) as (gen & Hgen & Fgen).
@@ -405,9 +408,9 @@ Theorem live_event_progress w toks e w' ys :
   Inv w toks -> Calm w -> evt_live w e -> handle_event w e = inl (w', ys) ->
   Calm w' /\ lexlt (meas w') (meas w).
 Proof.
-  intros HI HC Hlive H. destruct e as [fd|fd|fd kk|nf|]; try (destruct Hlive; fail).
+  intros HI HC Hlive H. destruct e as [fd|fd kk|fd kk|nf|]; try (destruct Hlive; fail).
   - (* input *)
-    destruct (shape_in w toks fd w' ys HI HC Hlive H) as (x & y & cl & n & HL & Hcl & Hn & -> & Hyc & Hys & Hyb & _).
+    destruct (shape_in w toks fd kk w' ys HI HC Hlive H) as (x & y & cl & n & HL & Hcl & Hn & -> & Hyc & Hys & Hyb & _).
     destruct (calm_conns _ HC _ _ HL) as (_ & Hrb & _).
     split.
     + eapply calm_update; eauto. apply calm_flags. eapply calm_clients; eauto. congruence.
@@ -483,7 +486,7 @@ Proof.
   assert (Conn : forall fd x y cl cl', alookup fd (w_conns w) = Some x -> alookup (sc_client x) (w_clients w) = Some cl ->
             w' = set_client (set_conn w fd y) (sc_client x) cl' -> ev_key e = KConn fd -> evt_live w' e').
   { intros fd x y cl cl' HL Hcl -> Ek. rewrite Ek in Hk.
-    destruct e' as [fd'|fd'|fd' kk'|nf'|]; try (destruct Hlive'; fail); cbn [ev_key] in Hk.
+    destruct e' as [fd'|fd' kk'|fd' kk'|nf'|]; try (destruct Hlive'; fail); cbn [ev_key] in Hk.
     - destruct Hlive' as (x' & HL' & Ho' & Ht'). assert (Hne : fd' <> fd) by congruence.
       exists x'. cbn [evt_live set_client set_conn w_conns]. rewrite alookup_update_other by congruence.
       split; [exact HL'|]. split; [exact Ho'|]. rewrite client_of_update_other; [exact Ht'|].
@@ -492,8 +495,8 @@ Proof.
       exists x'. cbn [set_client set_conn w_conns]. rewrite alookup_update_other by congruence. auto.
     - destruct Hlive' as (Hnf & Hb). cbn [evt_live set_client set_conn w_conns w_backlog]. split; [|exact Hb].
       rewrite alookup_update_other; [exact Hnf|]. intros ->. congruence. }
-  destruct e as [fd|fd|fd kk|nf|]; try (destruct Hlive; fail).
-  - destruct (shape_in w toks fd w' ys HI HC Hlive H) as (x & y & cl & n & HL & Hcl & _ & Hw & _).
+  destruct e as [fd|fd kk|fd kk|nf|]; try (destruct Hlive; fail).
+  - destruct (shape_in w toks fd kk w' ys HI HC Hlive H) as (x & y & cl & n & HL & Hcl & _ & Hw & _).
     eapply Conn; eauto.
   - destruct (shape_out w toks fd kk w' ys HI HC Hlive H) as (x & y & cl & sent & HL & Hcl & _ & _ & Hw & _).
     eapply Conn; eauto.
@@ -506,7 +509,7 @@ Proof.
     assert (Cn : forall fd' x', alookup fd' (w_conns w) = Some x' -> alookup fd' (w_conns w') = Some x').
     { intros fd' x' HL'. destruct Hw as [-> | ->]; cbn [refused_world accepted_world w_conns]; [exact HL'|].
       rewrite alookup_app_end, HL'. reflexivity. }
-    destruct e' as [fd'|fd'|fd' kk'|nf'|]; try (destruct Hlive'; fail); cbn [ev_key] in Hk.
+    destruct e' as [fd'|fd' kk'|fd' kk'|nf'|]; try (destruct Hlive'; fail); cbn [ev_key] in Hk.
     + destruct Hlive' as (x' & HL' & Ho' & Ht'). exists x'. split; [apply Cn; exact HL'|]. split; [exact Ho'|].
       rewrite Cl; [exact Ht'|]. eapply Hcfresh; eauto.
     + destruct Hlive' as (x' & HL' & Ho'). exists x'. split; [apply Cn; exact HL'|exact Ho'].
@@ -723,8 +726,8 @@ Proof.
     - exists x0, []. cbn [set_client set_conn w_conns]. rewrite alookup_update_other by congruence.
       split; [exact HL0|]. split; [reflexivity|]. split; [|constructor]. cbn [flat_map]. rewrite app_nil_r.
       apply wire_other. intros E. apply Hne. eapply (calm_inj _ HC); eauto. }
-  destruct e as [fd|fd|fd kk|nf|]; try (destruct Hlive; fail).
-  - destruct (shape_in w toks fd w' ys HI HC Hlive H) as (x & y & cl & n & HL & Hcl & _ & Hw & Hyc & _ & Hyb & Hrx & gen & Hgen & Fgen).
+  destruct e as [fd|fd kk|fd kk|nf|]; try (destruct Hlive; fail).
+  - destruct (shape_in w toks fd kk w' ys HI HC Hlive H) as (x & y & cl & n & HL & Hcl & _ & Hw & Hyc & _ & Hyb & Hrx & gen & Hgen & Fgen).
     eapply (Conn fd x y cl _ gen HL Hcl Hw Hyc); [|exact Fgen].
     rewrite Hrx. rewrite (unsent_grow _ _ gen Hgen Hyb). rewrite app_assoc. reflexivity.
   - destruct (shape_out w toks fd kk w' ys HI HC Hlive H) as (x & y & cl & sent & HL & Hcl & _ & Hu & Hw & Hyc & _).
